@@ -575,6 +575,8 @@ def _dep(ck, prog):
     ck.ob("DEP", construct, not bad, expected="delta-max is computed from countPos/countNeg/countNeut/len only (composition-only => permutation invariant)",
           found=bad, slot="value-depends-on", where=f.loc())
     used = sorted({n.func.attr for n in ast.walk(f.node) if isinstance(n, ast.Call) and isinstance(n.func, ast.Attribute) and is_self_attr(n.func)})
-    ck.ob("DEP", construct, set(used) <= {"countPos", "countNeg", "countNeut", "FCR", "delta"} and "delta" not in used,
+    unknown = [u for u in used if u not in ("countPos", "countNeg", "countNeut", "FCR", "delta", "Fplus", "Fminus", "NCPR", "countCharged")]
+    ck.shape(not unknown, "deltaMax calls receiver methods lcsa has no dependence summary for: %s" % unknown, f.loc())
+    ck.ob("DEP", construct, "delta" not in used,
           expected="receiver methods used: counts and FCR only", found=used, slot="receiver-calls", where=f.loc(),
           note="comparing against self.delta() would make delta-max depend on the arrangement")
